@@ -408,6 +408,35 @@ Proof.
   induction l; simpl; intros H; auto. rewrite H, IHl; auto.
 Qed.
 
+(* [has_data rs]: the printed records hold at least one data word *)
+Fixpoint has_data (rs : list record) : bool :=
+  match rs with
+  | [] => false
+  | RCom _ :: r => has_data r
+  | RVec _ [] :: r => has_data r
+  | _ :: _ => true
+  end.
+Lemma rword_layout_data rs s : has_data rs = true -> fst (rword (layout rs s)) <> None.
+Proof.
+  induction rs as [|r rs IH]; simpl; [discriminate|].
+  destruct r as [w|t w|t ws|t]; simpl.
+  - intros _. discriminate.
+  - intros _. destruct (null t); simpl; [|discriminate]. destruct (layout rs s); simpl; discriminate.
+  - destruct ws as [|w ws].
+    + intros H. destruct (null t); simpl; auto.
+    + intros _. destruct (null t); simpl; discriminate.
+  - auto.
+Qed.
+(* when data follows, the end-of-data probe answers false and the reading goes on *)
+Lemma reads_not_eod {B} (k : bool -> reader B) rs b :
+  has_data rs = true -> reads (k false) rs b -> reads (bind rd_eod k) rs b.
+Proof.
+  intros Hd H s s0 E. unfold bind, rd_eod.
+  assert (Hw : fst (rword s0) <> None).
+  { rewrite <- rword_sk, E, rword_sk. apply rword_layout_data; auto. }
+  destruct (fst (rword s0)); [|congruence]. apply H. exact E.
+Qed.
+
 (* a vector record with at least one value (an empty vector is NOT read back: see C08_empty_vector_refuted) *)
 Lemma reads_vec {A} (p : word -> option A) t ws v n :
   mapM p ws = Some v -> ws <> [] -> n = Z.of_nat (length ws) -> reads (rd_vec p n) [RVec t ws] v.
